@@ -111,7 +111,7 @@ def run(tier, seed):
          "pre": [{"do": "post_message_wait", "content": "first"}, {"do": "post_message_wait", "content": "second"},
                  {"do": "checkpoint_last_message"}, {"do": "delete_artifacts"}], "_thread": None},
         {"id": "parallel_runs", "no_provider": True, "parallel": True,
-         "inputs": [json.dumps({"tool": "write", "args": {"path": "p1.txt", "content": "1"}}), json.dumps({"tool": "bash", "args": {"command": "echo hi > p2.txt"}}),
+         "inputs": [json.dumps({"tool": "write", "args": {"path": "p1.txt", "content": "1"}}), json.dumps({"tool": "bash", "args": {"command": "echo hi"}}),
                     "plain prompt"], "_thread": None},
         {"id": "job_failure_auto", "no_provider": True, "input": "after",
          "pre": [{"do": "post_message_wait", "content": "m1"}, {"do": "post_message_wait", "content": "m2"}, {"do": "break_artifacts_dir"}, {"do": "auto"}], "_thread": None},
